@@ -292,11 +292,14 @@ func loadKnown() []knownFinding {
 			rest = rest[:i]
 		}
 		k := knownFinding{What: what}
+		// signature= runs to the end of the head (signatures may contain blanks)
+		if i := strings.Index(rest, "signature="); i >= 0 {
+			k.Sig = strings.TrimSpace(rest[i+len("signature="):])
+			rest = rest[:i]
+		}
 		for _, f := range strings.Fields(rest) {
 			if strings.HasPrefix(f, "property=") {
 				k.Property = f[len("property="):]
-			} else if strings.HasPrefix(f, "signature=") {
-				k.Sig = f[len("signature="):]
 			}
 		}
 		if k.Property != "" && k.Sig != "" {
